@@ -38,11 +38,19 @@ def run(tier, seed, res, lean):
             'c04-correspondence', 'the real pipeline and the Lean VM (on the extracted graph) disagree on a cached history; '
             'theorems C04.* no longer tied to the code', {'suite': 'S-CACHE', 'theorems': list(lean['theorems']), **model_bad[0]},
             found_input=False))
+    if stats['thm_contradicted']:
+        raise RuntimeError('the compiled driver contradicts the proved theorem CM.C04.full_spec_along_history')
     res.coverage.update({
         'evaluations': stats['calls'] + sum(o[0]['calls'] for o in col), 'distinct_nontrivial': stats['distinct_nontrivial'], 'rule': RULE,
         'programs': stats['histories'], 'disagreements_checked': len(model_bad) + len(c04_bad),
         'samples': [o[4] for o in outs[:1] if o[4]], 'column_variant_cases': sum(o[0]['variant_cases'] for o in col),
         'distribution': {k: stats[k] for k in ('ops', 'caches', 'errors', 'hits', 'histories')},
+        'theorem_instances': {
+            'what': 'calls of graphs EXTRACTED from real compiled pipelines on which the driver evaluated the hypotheses of '
+                    'CM.C04.full_spec_along_history with faithfulness discharged by CM.C05 (okCB, plainB, callOKB, disk-like stores only) '
+                    'to true; the model result must then be the cache-free denotation',
+            'hypotheses_hold': stats['thm_instances'], 'of_which_served_from_cache': stats['thm_hits'],
+            'hypotheses_fail (RAM stores / Silent / CheckIds)': stats['thm_hyp_false'], 'contradicted': stats['thm_contradicted']},
     })
 
 
